@@ -10,6 +10,7 @@ import (
 	"net/http/httptest"
 	"path"
 	"sort"
+	"strconv"
 	"strings"
 	"sync"
 	"time"
@@ -25,6 +26,8 @@ type Wire struct {
 	Handler http.Handler
 	mu      sync.Mutex
 	// LastRequest holds the bytes of the most recent request as sent.
+	// ShortBodies counts answers whose handler announced more bytes than it wrote
+	ShortBodies int
 	LastRequest []byte
 	Requests    int
 	// Hook, if set, is called at the entry of RoundTrip (scheduling point for C18).
@@ -89,6 +92,19 @@ func (w *Wire) RoundTrip(req *http.Request) (*http.Response, error) {
 	res := rec.Result()
 	var rbuf bytes.Buffer
 	body, _ := io.ReadAll(res.Body)
+	// What net/http's server does with a handler that announces a Content-Length and then writes another
+	// number of bytes: the excess is not sent (Write fails with ErrContentLength); after too few bytes the
+	// connection is closed, and the client's read of the body ends in an unexpected EOF.
+	short := -1
+	if d := rec.Header().Get("Content-Length"); d != "" && sreq.Method != http.MethodHead && res.StatusCode != http.StatusNoContent && res.StatusCode != http.StatusNotModified && res.StatusCode >= 200 {
+		if n, perr := strconv.ParseInt(d, 10, 64); perr == nil && n >= 0 {
+			if int64(len(body)) > n {
+				body = body[:n]
+			} else if int64(len(body)) < n {
+				short = len(body)
+			}
+		}
+	}
 	res.Body = io.NopCloser(bytes.NewReader(body))
 	res.ContentLength = int64(len(body))
 	if err := res.Write(&rbuf); err != nil {
@@ -100,8 +116,18 @@ func (w *Wire) RoundTrip(req *http.Request) (*http.Response, error) {
 	}
 	b, _ := io.ReadAll(cres.Body)
 	cres.Body = io.NopCloser(bytes.NewReader(b))
+	if short >= 0 {
+		w.mu.Lock()
+		w.ShortBodies++
+		w.mu.Unlock()
+		cres.Body = io.NopCloser(io.MultiReader(bytes.NewReader(b), errReader{io.ErrUnexpectedEOF}))
+	}
 	return cres, nil
 }
+
+type errReader struct{ err error }
+
+func (e errReader) Read([]byte) (int, error) { return 0, e.err }
 
 // Client returns a stock http.Client over the wire (redirects followed by net/http's own logic).
 func (w *Wire) Client() *http.Client { return &http.Client{Transport: w} }
